@@ -930,6 +930,16 @@ PARTS = {
                                desc="`!switch` with three cases whose expressions are fields of symbolic numeric primitive types, in a symbolic case order, through the real dsl.Validate: accepted iff the "
                                     "cases have a common type, static type = promotion of all cases (not of some of them), kind = widest case kind, two accepted orders of the same cases agree, and every "
                                     "case is brought to the switch type by a conversion chain that loses nothing source and result both hold")),
+        (G, "gosym_part", dict(name="c19_reference_scope", entry="internal/zzverif.C19Scope", args_quick=(0,), args_thorough=(1,),
+                               required_sites=("accepted", "referenced-field-has-the-promoted-type-of-its-operands", "plain-reference-has-the-type-of-the-field",
+                                               "reference-inside-a-switch-case-has-the-type-of-the-field", "referenced-field-body-uses-no-variable"),
+                               assumptions=["binary promotion rule = the real dsl.GetCommonType (decided by c19_static_types), small integers promoted to int32 (documented)",
+                                            "field and variable types over 7 numeric primitives (thorough: 13); the referenced computed field is `v + v` in another record or in the same record; the "
+                                            "variable declared by the switch case is named like the field `v` or differently; both declaration orders of the two referencing computed fields; a model "
+                                            "whose variable shadows a field of its own record may be rejected (no verdict asserted there)"],
+                               desc="a computed field (`inner.dbl` of another record / `dbl` of the same record) referenced from a plain computed field and from inside a `!switch` case that declares a "
+                                    "variable of symbolic type and name, in a symbolic declaration order, through the real dsl.Validate: every reference has the static type of the field's own body, "
+                                    "that type is the promotion of its operand type whatever the variable's type, and the body uses no variable")),
         (G, "gosym_part", dict(name="c19_alias_operands", entry="internal/zzverif.C19AliasOperands", args_quick=(0,), args_thorough=(1,),
                                extra_thorough=("-max-paths", "400000"),
                                required_sites=("accept-reject-independent-of-alias-levels", "resolved-tree-and-static-types-independent-of-alias-levels",
@@ -1355,6 +1365,14 @@ PARTS = {
                                                "cwd-is-package-dir-when-idle", "watcher-keeps-running"),
                                assumptions=C20_ASSUME + C20V_ASSUME,
                                desc=C20V_DESC + "; patient editor (waits for the watcher to go idle between saves; args: saves, impatient=0, preemptions=0, number of field types)")),
+        (G, "gosym_part", dict(name="c20_versions_broken", entry="internal/cmd.VerifC20VersionsBroken", args_quick=(0,), args_thorough=(1,),
+                               extra_quick=("-replay-sample", "4", "-max-paths", "100000"), extra_thorough=("-replay-sample", "8", "-max-paths", "1000000"),
+                               required_sites=("converged-to-one-shot-output", "cwd-is-package-dir-when-idle", "watcher-keeps-running"),
+                               assumptions=C20_ASSUME + C20V_ASSUME,
+                               desc=C20V_DESC + "; one package of the closure other than the root (an import, a predecessor version, a predecessor's import - symbolic) cannot be loaded "
+                                    "(ill-cased namespace / an import of a directory that does not exist - symbolic), from start-up on or from the save of the root manifest that adds the "
+                                    "versions block (symbolic); the editor repairs it, then optionally edits the model of a symbolic package: the output converges to the one-shot output "
+                                    "(patient editor; thorough: one preemption)")),
         (G, "gosym_part", dict(name="c20_event_kinds", entry="internal/cmd.VerifC20EventKinds", args_quick=(2, 0), args_thorough=(3, 0),
                                extra_quick=("-replay-sample", "4", "-max-paths", "100000"), extra_thorough=("-replay-sample", "8", "-max-paths", "1000000"),
                                required_sites=("initial-generation-wrote-output", "watcher-keeps-running", "converged-to-one-shot-output", "invalid-final-contents-leave-output-untouched"),
